@@ -25,6 +25,7 @@ SPEC = dict(
     cs=[dict(family="snap", n=(80, 400), paths=(3, 5), calls=45, mode="snap",
              label="YarnTrace: Next / Snapshot / RestoreAt interleaved over three runners of one script")],
     nontrivial=lambda c: any(s["k"] == "jump" for b in c["bodies"] for s in b),
+    scripts=dict(paths=(3, 12), calls=60, modes=["snap"]),
     rule="snap-family programs (2-3 nodes, assignments, options, pending commands, jumps): TLC enumerates every run x every point of it "
          "as the save point (<=2 snapshots) x every later state of the runner as the restore target (mid-node, waiting for a choice, "
          "waiting for a command, ended) and the continuation after the restore; replayed with every snapshot handle re-read after "
